@@ -177,6 +177,17 @@ def check_argument_exchange(prog, rep, rule, prefixes, exclude=()):
         for k in call.keywords:
             if k.arg:
                 bound[k.arg] = k.value
+        if callee is not None and callee.node.args.kwarg is not None:
+            # a keyword the callee has no parameter for disappears into its **kwargs: when its value is named like a parameter the callee does have, and that parameter
+            # is left unbound, the value was meant for that parameter (`afreq = p_anc` handed to `from_gmat(gmat, p_anc=None, **kwargs)`)
+            lost = [(k, v.id) for k, v in bound.items() if k not in allp and isinstance(v, ast.Name) and v.id in allp and v.id not in bound]
+            if lost:
+                owner = _enclosing(prog, m, call)
+                rep.violate(rule, "%s -> %s" % (owner, callee.qualname.split(":")[-1]), "`%s` is handed over as keyword `%s`, which the callee does not have (it disappears into **%s) "
+                            "while the callee's own `%s` is left at its default" % (lost[0][1], lost[0][0], callee.node.args.kwarg.arg, lost[0][1]),
+                            "%s:%d" % (m.relpath, getattr(call, "lineno", 0)), "%s=%s" % (lost[0][1], lost[0][1]), "%s=%s" % lost[0])
+                n += 1
+                continue
         if len(bound) < 2:
             continue
         n += 1
@@ -236,10 +247,208 @@ def _enclosing(prog, m, call):
     return "%s:%s" % (m.name, best.name)
 
 
+def check_dropped_forward(prog, rep, rule, prefixes, exclude=()):
+    """The `dropped` obligation of constructor forwarding at every other resolved call: a function that hands at least two of its own parameters to a callee under their
+    own names (`g(a=a, b=b)`) and has a further parameter `q` that the callee also accepts hands `q` on as well, or reads it itself - a parameter that is accepted,
+    never read and not handed on means the callee's default silently replaces what the caller declared."""
+    import collections
+    n = 0
+    for m in sorted(prog.modules.values(), key=lambda m_: m_.name):
+        if not _in(m.name, prefixes) or _in(m.name, exclude):
+            continue
+        funcs = [(c, f) for c in m.classes.values() for f in c.methods.values()] + [(None, f) for f in m.functions.values()]
+        for c, f in funcs:
+            if f.name == "__init__":
+                continue        # constructor chains are judged by check_super_init
+            params = [p_ for p_ in f.params() if p_ not in ("self", "cls")]
+            if len(params) < 3:
+                continue
+            reads = collections.Counter(x.id for x in ast.walk(f.node) if isinstance(x, ast.Name) and isinstance(x.ctx, ast.Load))
+            for call in walk_no_nested(f.node):
+                if not isinstance(call, ast.Call):
+                    continue
+                callee, skip = resolve_call(prog, m, c, call)
+                if callee is None or any(isinstance(a, ast.Starred) for a in call.args):
+                    continue
+                pn = [a.arg for a in callee.node.args.args][skip:]
+                allp = set(pn) | {a.arg for a in callee.node.args.kwonlyargs}
+                bound = {}
+                for i, a in enumerate(call.args):
+                    if i < len(pn):
+                        bound[pn[i]] = a
+                for kw in call.keywords:
+                    if kw.arg:
+                        bound[kw.arg] = kw.value
+                same = [k for k, v in bound.items() if isinstance(v, ast.Name) and v.id == k and k in params]
+                if len(same) < 2:
+                    continue
+                n += 1
+                rep.saw(f)
+                construct = "%s -> %s" % (f.qualname, callee.qualname.split(":")[-1])
+                lost = [q for q in params if reads[q] == 0 and q in allp and q not in bound]
+                if lost:
+                    rep.violate(rule, construct, "`%s` is accepted and the callee has a parameter of that name, but it is neither handed on nor read: the callee's default silently "
+                                "replaces the declared value" % lost[0], where(f, call), "%s=%s" % (lost[0], lost[0]), "absent")
+                else:
+                    rep.ok(rule, construct + "#%d" % getattr(call, "lineno", 0), "%d parameters handed on under their own names, none left behind" % len(same))
+    return n
+
+
+def check_properties(prog, rep, rule, prefixes, exclude=()):
+    """RW-property: a property reads what it writes.  (1) A getter that is `return self._a` and a setter that stores `self._b = ...` on the same (resolved) property
+    have a == b (387 pairs on the reference tree, none deviates).  (2) A function decorated `@<Base>.<p>.setter` / `.getter` is itself named <p>: Python binds the new
+    property object to the FUNCTION's name, so another name silently creates a property that reads through p's getter and writes elsewhere."""
+    from sa.model import body_nodoc
+    n = 0
+    for m in sorted(prog.modules.values(), key=lambda m_: m_.name):
+        if not _in(m.name, prefixes) or _in(m.name, exclude):
+            continue
+        for c in m.classes.values():
+            for st in c.node.body:
+                if not isinstance(st, (ast.FunctionDef, ast.AsyncFunctionDef)):
+                    continue
+                for d in st.decorator_list:
+                    if isinstance(d, ast.Attribute) and d.attr in ("setter", "getter", "deleter") and isinstance(d.value, (ast.Attribute, ast.Name)):
+                        pname = d.value.attr if isinstance(d.value, ast.Attribute) else d.value.id
+                        n += 1
+                        construct = "%s.%s#%s" % (c.qualname, st.name, d.attr)
+                        if pname != st.name:
+                            rep.violate(rule, construct, "the %s is declared on property `%s` (%s) but the function is named `%s`: the class attribute `%s` becomes a property that "
+                                        "keeps `%s`'s other accessor - it reads and writes different storage" % (d.attr, pname, dump(d), st.name, st.name, pname),
+                                        "%s:%d" % (m.relpath, st.lineno), "@%s.%s.%s" % (dump(d.value).rsplit(".", 1)[0] if isinstance(d.value, ast.Attribute) else "", st.name, d.attr), dump(d))
+                        else:
+                            rep.ok(rule, construct, "accessor declared on the property of its own name")
+            for name in sorted(c.own_props):
+                if prog.mro(c) is None:
+                    continue
+                P = prog.lookup_prop(c, name)
+                if P is None or P.getter is None or P.setter is None:
+                    continue
+                gb = body_nodoc(P.getter.node)
+                if not (len(gb) == 1 and isinstance(gb[0], ast.Return) and isinstance(gb[0].value, ast.Attribute) and dump(gb[0].value.value) == "self"):
+                    continue
+                ga = gb[0].value.attr
+                stores = {t.attr for st in walk_no_nested(P.setter.node) if isinstance(st, ast.Assign) for t in st.targets if isinstance(t, ast.Attribute) and dump(t.value) == "self"}
+                if not stores:
+                    continue
+                n += 1
+                rep.saw(P.getter)
+                construct = "%s.%s" % (c.qualname, name)
+                if ga not in stores:
+                    rep.violate(rule, construct, "the getter returns self.%s but the setter stores %s: what is read back is not what was stored" % (ga, ", ".join("self." + x for x in sorted(stores))),
+                                where(P.getter, gb[0]), "return self.%s" % sorted(stores)[0], "return self.%s" % ga)
+                else:
+                    rep.ok(rule, construct, "getter returns the attribute the setter stores (self.%s)" % ga)
+    return n
+
+
+# words that distinguish the members of one family of sibling classes
+FAMILY_WORDS = [("Binary", "Integer", "Real", "Subset"), ("TwoWay", "ThreeWay", "FourWay", "Dihybrid"), ("Genetic", "Genic"), ("Haldane", "Kosambi"),
+                ("Molecular", "VanRaden", "Yang", "GeneralizedWeighted")]
+
+
+def check_family(prog, rep, rule, prefixes, exclude=()):
+    """RW-family, two obligations on families of sibling classes (the Binary / Integer / Real / Subset variants of one protocol or problem, the two-/three-/four-way
+    variance matrices and their factories, ...):
+      own family    a member that constructs, or calls a `from_*` factory of, a class of a sibling family constructs its OWN counterpart (the dihybrid factory builds
+                    the dihybrid matrix) - 138 such references on the reference tree, none crosses;
+      same wiring   where the other members of a family hand a parameter on under its own name (`gmat = gmat`, `ebv = ebv`) in the same call of the same method, every
+                    member does - 27 families, none deviates."""
+    import collections
+    allnames = {c.name for m in prog.modules.values() for c in m.classes.values()}
+    n = 0
+    mods = [m for m in sorted(prog.modules.values(), key=lambda m_: m_.name) if _in(m.name, prefixes) and not _in(m.name, exclude)]
+    for m in mods:
+        for c in m.classes.values():
+            for S in FAMILY_WORDS:
+                mine = [e for e in S if e in c.name]
+                if len(mine) != 1:
+                    continue
+                e = mine[0]
+                for f in c.methods.values():
+                    for x in walk_no_nested(f.node):
+                        tgt = None
+                        if isinstance(x, ast.Call) and isinstance(x.func, ast.Name):
+                            tgt = x.func.id
+                        elif isinstance(x, ast.Call) and isinstance(x.func, ast.Attribute) and isinstance(x.func.value, ast.Name) and x.func.attr.startswith("from_"):
+                            tgt = x.func.value.id
+                        if tgt is None or tgt not in allnames or tgt == c.name:
+                            continue
+                        words = [e2 for e2 in S if e2 in tgt]
+                        if len(words) != 1:
+                            continue
+                        n += 1
+                        rep.saw(f)
+                        construct = "%s -> %s" % (f.qualname, tgt)
+                        if words[0] != e and tgt.replace(words[0], e, 1) in allnames:
+                            rep.violate(rule, construct, "the %s member of the family builds / dispatches to the %s counterpart %s although %s exists: the result is computed by the "
+                                        "sibling design's routine" % (e, words[0], tgt, tgt.replace(words[0], e, 1)), where(f, x), tgt.replace(words[0], e, 1), tgt)
+                        else:
+                            rep.ok(rule, construct, "own-family counterpart")
+    # same wiring among the encoding variants
+    ENC = FAMILY_WORDS[0]
+    for m in mods:
+        fam = collections.defaultdict(dict)
+        for c in m.classes.values():
+            for e in ENC:
+                if e in c.name:
+                    fam[c.name.replace(e, "#", 1)][e] = c
+                    break
+        for k, members in sorted(fam.items()):
+            if len(members) < 3:
+                continue
+            meths = set.intersection(*[set(c.methods) for c in members.values()])
+            for mn in sorted(meths):
+                table = {}
+                for e, c in members.items():
+                    f = c.methods[mn]
+                    cnt = collections.Counter()
+                    for call in walk_no_nested(f.node):
+                        if not isinstance(call, ast.Call) or (not call.keywords and len(call.args) < 2):
+                            continue
+                        ft = dump(call.func)
+                        for e2 in ENC:
+                            ft = ft.replace(e2, "#")
+                        cnt[ft] += 1
+                        callee, skip = resolve_call(prog, m, c, call)
+                        bound = {}
+                        if callee is not None and not any(isinstance(a, ast.Starred) for a in call.args):
+                            pn = [a.arg for a in callee.node.args.args][skip:]
+                            for i, a in enumerate(call.args):
+                                if i < len(pn):
+                                    bound[pn[i]] = a
+                        for kw in call.keywords:
+                            if kw.arg:
+                                bound[kw.arg] = kw.value
+                        table.setdefault((ft, cnt[ft]), {})[e] = (f, call, {p_: dump(v) for p_, v in bound.items()})
+                for key, per in sorted(table.items()):
+                    if len(per) < 3:
+                        continue
+                    params = set().union(*[set(d[2]) for d in per.values()])
+                    for p_ in sorted(params):
+                        vals = {e: per[e][2].get(p_) for e in per}
+                        cnts = collections.Counter(vals.values()).most_common()
+                        own = {p_, "self." + p_, "self._" + p_}
+                        if cnts[0][0] not in own or cnts[0][1] < 2:
+                            continue
+                        n += 1
+                        odd = [e for e, v in vals.items() if v != cnts[0][0]]
+                        construct = "%s.%s -> %s [%s]" % (k, mn, key[0][:60], p_)
+                        if len(cnts) == 2 and len(odd) == 1:
+                            f_, call_, _ = per[odd[0]]
+                            rep.saw(f_)
+                            rep.violate(rule, construct, "the %s variant hands `%s` to `%s` where the other %d variants of the family hand on %s: the variant computes on other data than "
+                                        "its siblings and than its own documentation" % (odd[0], vals[odd[0]], p_, cnts[0][1], cnts[0][0]),
+                                        "%s:%d" % (m.relpath, getattr(call_, "lineno", 0)), "%s=%s" % (p_, cnts[0][0]), "%s=%s" % (p_, vals[odd[0]]))
+                        elif not odd:
+                            rep.ok(rule, construct, "all %d variants hand on %s" % (len(per), cnts[0][0]))
+    return n
+
+
 WIRING = {
     # property: (module prefixes, excluded prefixes, what the constructor options of these classes stand for)
     "C01": (["pybrops.breed.prot.mate", "pybrops.core.util.mate"], [], "parent selections, counts and generator of the mating protocol"),
-    "C03": (["pybrops.core.mat", "pybrops.popgen.gmat", "pybrops.breed.prot.gt"], [], "data and label arrays of the matrix"),
+    "C03": (["pybrops.core.mat", "pybrops.popgen.gmat", "pybrops.popgen.cmat", "pybrops.breed.prot.gt"], [], "data and label arrays of the matrix"),
     "C04": (["pybrops.model.gmod"], [], "coefficients, trait names and parameters of the genomic model"),
     "C05": (["pybrops.breed.prot.sel.prob"], [], "objective / constraint weights, transformations and their keyword arguments of the problem"),
     "C06": (["pybrops.opt"], [], "decision space, bounds, objective and constraint weights / transformations of the problem"),
@@ -253,7 +462,11 @@ WIRING = {
 }
 
 
-def wire(prog, rep, prop, floor_forward, floor_argorder):
+# instance floors of RW-property (about 80 % of the accessor pairs / decorated accessors counted on the reference tree)
+PROPERTY_FLOORS = {"C01": 40, "C03": 125, "C04": 32, "C05": 90, "C06": 210, "C07": 208, "C11": 45, "C12": 36, "C13": 33, "C14": 21, "C15": 9, "C20": 43}
+
+
+def wire(prog, rep, prop, floor_forward, floor_argorder, floor_family=None):
     """arm the two constructor-forwarding obligations (RW-forward) and the argument-exchange obligation (RW-argorder) on the modules a property owns"""
     prefixes, exclude, what = WIRING[prop]
     if getattr(rep, "only_rules", None):
@@ -261,5 +474,15 @@ def wire(prog, rep, prop, floor_forward, floor_argorder):
     rep.floor("RW-forward", floor_forward)
     rep.floor("RW-argorder", floor_argorder)
     nf = check_super_init(prog, rep, "RW-forward", prefixes, what, exclude)
+    nf += check_dropped_forward(prog, rep, "RW-forward", prefixes, exclude)
     na = check_argument_exchange(prog, rep, "RW-argorder", prefixes, exclude)
     rep.extra["wiring"] = {"super_init_calls": nf, "calls_with_two_or_more_bound_parameters": na}
+    if getattr(rep, "only_rules", None):
+        rep.only_rules = set(rep.only_rules) | {"RW-property"}
+    rep.floor("RW-property", PROPERTY_FLOORS[prop])
+    rep.extra["wiring"]["property_obligations"] = check_properties(prog, rep, "RW-property", prefixes, exclude)
+    if floor_family is not None:
+        if getattr(rep, "only_rules", None):
+            rep.only_rules = set(rep.only_rules) | {"RW-family"}
+        rep.floor("RW-family", floor_family)
+        rep.extra["wiring"]["family_obligations"] = check_family(prog, rep, "RW-family", prefixes, exclude)
